@@ -165,6 +165,13 @@ class Interp:
     def other(self, n, st):
         return st
 
+    def refine(self, cond, branch, st):
+        """state on the `branch` (True/False) edge of condition `cond`"""
+        return st
+
+    def refine_arm(self, m, arm, st):
+        return st
+
     def run_fn(self, fn, entry):
         self.exits = []
         out = self.ex(fn['body'], entry)
@@ -205,11 +212,12 @@ class Interp:
             c = self.spec.cond(n['c'])
             st = self.ex(n['c'], st)
             if c is True:
-                return self.ex(n['t'], st)
+                return self.ex(n['t'], self.refine(n['c'], True, st))
             if c is False:
-                return self.ex(n['e'], st) if 'e' in n else st
-            a = self.ex(n['t'], st)
-            b = self.ex(n['e'], st) if 'e' in n else st
+                return self.ex(n['e'], self.refine(n['c'], False, st)) if 'e' in n else self.refine(n['c'], False, st)
+            a = self.ex(n['t'], self.refine(n['c'], True, st))
+            sf = self.refine(n['c'], False, st)
+            b = self.ex(n['e'], sf) if 'e' in n else sf
             return self.join(a, b)
         if k == 'LetCond':
             return self.ex(n['init'], st)
@@ -222,13 +230,15 @@ class Interp:
                 # Continue(v) => v ; Break(r) => return
                 self.exits.append(st)
                 return st
-            if src == 'ForLoopDesugar':
+            if src == 'ForLoopDesugar' and len(n['arms']) == 1:
                 # match into_iter(x) { mut iter => loop { match next(&mut iter) { None => break, Some(p) => body } } }
-                return self.ex_list([a['b'] for a in n['arms']], st)
+                return self.ex(n['arms'][0]['b'], st)
             res = None
             arms = self.spec.feasible_arms(n)
             for arm in arms:
-                s2 = st
+                s2 = self.refine_arm(n, arm, st)
+                if s2 is None:
+                    continue
                 if 'g' in arm:
                     s2 = self.ex(arm['g'], s2)
                 res = self.join(res, self.ex(arm['b'], s2)) if res is not None or True else None
